@@ -284,6 +284,129 @@ fn check_c(doc: &str, shape: &Shape, r: &mut Report) {
     }
 }
 
+// ------------------------------------------------------------------ static part: derive types as map keys
+
+mod keys {
+    use conjure_object::DoubleKey;
+    use serde::{Deserialize, Serialize};
+    macro_rules! nt {
+        ($n:ident, $t:ty) => {
+            /// a serde-derived (non-transparent) newtype struct
+            #[derive(Serialize, Deserialize, PartialEq, Eq, PartialOrd, Ord, Debug, Clone)]
+            pub struct $n(pub $t);
+        };
+    }
+    nt!(KU32, u32);
+    nt!(KI64, i64);
+    nt!(KI8, i8);
+    nt!(KU64, u64);
+    nt!(KI128, i128);
+    nt!(KU128, u128);
+    nt!(KBool, bool);
+    nt!(KStr, String);
+    nt!(KChar, char);
+    nt!(KDbl, DoubleKey);
+    nt!(KNested, KU32);
+    #[derive(Serialize, Deserialize, PartialEq, Eq, PartialOrd, Ord, Debug, Clone)]
+    #[serde(transparent)]
+    pub struct KTransparent(pub i32);
+    #[derive(Serialize, Deserialize, PartialEq, Eq, PartialOrd, Ord, Debug, Clone)]
+    pub enum KEnum {
+        First,
+        #[serde(rename = "SECOND_ONE")]
+        Second,
+    }
+    #[derive(Serialize, Deserialize, PartialEq, Debug, Clone)]
+    pub struct Holder<M> {
+        pub m: M,
+        pub n: Option<M>,
+        pub l: Vec<M>,
+    }
+}
+
+fn key_case<K>(name: &'static str, keys: Vec<K>, r: &mut Report)
+where
+    K: serde::Serialize + serde::de::DeserializeOwned + Ord + Clone + std::fmt::Debug,
+{
+    use std::collections::{BTreeMap, BTreeSet};
+    let mut maps: Vec<BTreeMap<K, i32>> = vec![BTreeMap::new()];
+    for (i, k) in keys.iter().enumerate() {
+        maps.push([(k.clone(), i as i32)].into_iter().collect());
+    }
+    maps.push(keys.iter().cloned().enumerate().map(|(i, k)| (k, -(i as i32))).collect());
+    for m in maps {
+        r.states += 1;
+        let holder = keys::Holder { m: m.clone(), n: Some(m.clone()), l: vec![m.clone(), BTreeMap::new()] };
+        let nested: BTreeMap<K, BTreeMap<K, BTreeSet<K>>> = m.keys().map(|k| (k.clone(), [(k.clone(), m.keys().cloned().collect())].into_iter().collect())).collect();
+        key_check(name, "map<K,i32>", &m, r);
+        key_check(name, "struct{map,optional<map>,list<map>}", &holder, r);
+        key_check(name, "map<K,map<K,set<K>>>", &nested, r);
+    }
+}
+
+fn key_check<T>(name: &'static str, form: &'static str, v: &T, r: &mut Report)
+where
+    T: serde::Serialize + serde::de::DeserializeOwned + PartialEq + std::fmt::Debug,
+{
+    r.evaluations += 3;
+    r.transitions += 3;
+    let case = json!({"space": "K", "key": name, "form": form, "value": format!("{:?}", v).chars().take(300).collect::<String>()});
+    let sig = |k: &str| format!("C13|K|{}|{}|{}", k, name, form);
+    let text = match conjure_serde::json::to_string(v) {
+        Ok(t) => t,
+        Err(_) => return,
+    };
+    // A: value -> Any -> value, and the same JSON
+    match vcommon::catch(|| Any::new(v).map_err(|e| e.to_string()).and_then(|a| Ok((conjure_serde::json::to_string(&a).map_err(|e| e.to_string())?, a.deserialize_into::<T>().map_err(|e| e.to_string())?)))) {
+        Err(p) => r.violation(sig("panic"), format!("{} as {}: Any::new / deserialize_into panicked: {}", name, form, p), case.clone()),
+        Ok(Err(e)) => r.violation(sig("value-rejected"), format!("{} as {}: value {} does not survive Any: {}", name, form, text, e), case.clone()),
+        Ok(Ok((t2, back))) => {
+            if &back != v {
+                r.violation(sig("value-changed"), format!("{} as {}: {} came back from Any as {:?}", name, form, text, back), case.clone());
+            } else if parse_json(t2.as_bytes()) != parse_json(text.as_bytes()) {
+                r.violation(sig("json-differs"), format!("{} as {}: serializes as {} directly and as {} through Any", name, form, text, t2), case.clone());
+            } else {
+                r.outcome("K:value-survives-any");
+            }
+        }
+    }
+    // C: document -> Any -> view == document -> value. JSON number literals beyond 64 bits
+    // are carried as doubles by a JSON document (as in space C): 128-bit keys are strings and
+    // are judged, 128-bit *values* in the document are not
+    if form.contains("set<K>") && name.contains("128") {
+        return;
+    }
+    let direct = conjure_serde::json::client_from_str::<T>(&text);
+    let via = vcommon::catch(|| conjure_serde::json::client_from_str::<Any>(&text).map_err(|e| e.to_string()).and_then(|a| a.deserialize_into::<T>().map_err(|e| e.to_string())));
+    match (direct, via) {
+        (_, Err(p)) => r.violation(sig("panic"), format!("{} as {}: viewing {} through Any panicked: {}", name, form, text, p), case),
+        (Ok(d), Ok(Ok(x))) if d == x => r.outcome("K:view-agrees"),
+        (Ok(d), Ok(other)) => r.violation(sig("view-differs"), format!("{} as {}: document {} parses directly as {:?} but through Any as {:?}", name, form, text, d, other), case),
+        (Err(_), _) => r.outcome("K:document-not-parsable-directly"),
+    }
+}
+
+fn static_keys(r: &mut Report) {
+    use conjure_object::DoubleKey;
+    use keys::*;
+    key_case("newtype(u32)", vec![KU32(0), KU32(1), KU32(u32::MAX)], r);
+    key_case("newtype(i64)", vec![KI64(i64::MIN), KI64(-1), KI64(i64::MAX)], r);
+    key_case("newtype(i8)", vec![KI8(-128), KI8(0), KI8(127)], r);
+    key_case("newtype(u64)", vec![KU64(0), KU64(u64::MAX)], r);
+    key_case("newtype(i128)", vec![KI128(i128::MIN), KI128(-1), KI128(i128::MAX)], r);
+    key_case("newtype(u128)", vec![KU128(0), KU128(u128::MAX)], r);
+    key_case("newtype(bool)", vec![KBool(false), KBool(true)], r);
+    key_case("newtype(string)", vec![KStr("".into()), KStr("1".into()), KStr("true".into()), KStr("a b".into())], r);
+    key_case("newtype(char)", vec![KChar('a'), KChar('1'), KChar('\u{e9}')], r);
+    key_case("newtype(DoubleKey)", vec![KDbl(DoubleKey(-0.5)), KDbl(DoubleKey(1e21)), KDbl(DoubleKey(f64::INFINITY)), KDbl(DoubleKey(f64::NAN))], r);
+    key_case("newtype(newtype(u32))", vec![KNested(KU32(7)), KNested(KU32(0))], r);
+    key_case("transparent(i32)", vec![KTransparent(-1), KTransparent(0), KTransparent(i32::MAX)], r);
+    key_case("unit-variant enum", vec![KEnum::First, KEnum::Second], r);
+    key_case("i32", vec![-1i32, 0, 1], r);
+    key_case("DoubleKey", vec![DoubleKey(0.1), DoubleKey(f64::NEG_INFINITY)], r);
+    key_case("option-free tuple struct key is a newtype", vec![KI64(5)], r);
+}
+
 pub fn run(args: &Args) -> Report {
     let mut report = Report::new("C13", "model_checking");
     let shapes = space_a(args);
@@ -307,6 +430,7 @@ pub fn run(args: &Args) -> Report {
                 }
             }
             Some("B") => check_b(c["doc"].as_str().unwrap(), &mut report),
+            Some("K") => static_keys(&mut report),
             _ => {
                 let want = c["shape"].as_str().unwrap();
                 let doc = c["doc"].as_str().unwrap();
@@ -357,6 +481,7 @@ pub fn run(args: &Args) -> Report {
         })
         .reduce(new, merge);
     report.merge(c);
+    static_keys(&mut report);
     report.sample("C", json!({"doc": "{\"NaN\":\"aGk=\"}", "shape": "map<f64,bytes>"}));
     report.extra.insert("space_A_shapes".into(), json!(shapes.len()));
     report.extra.insert("space_B_documents".into(), json!(docs.len()));
